@@ -95,6 +95,47 @@ fn main() {
 }
 
 fn dispatch(prop: &str, rep: &mut Report) {
+    dispatch_once(prop, rep);
+    // further constructors of the decoders (found in the tree by build.rs): the decoder properties speak about the
+    // decoder, however it was built, so the monitor is repeated with `fresh()` meaning each of them in turn
+    use std::sync::atomic::Ordering::SeqCst;
+    let sets: &[u8] = match prop {
+        "C01" => &[2],
+        "C02" => &[1],
+        "C07" | "C13" | "C19" | "C18" | "C08" => &[1, 2, 0],
+        "C05" | "C06" => &[0],
+        _ => &[],
+    };
+    for set in sets {
+        let names: Vec<&'static str> = match set {
+            1 => layouts::extra_ctors_set1().iter().map(|c| c.0).collect(),
+            2 => layouts::extra_ctors_set2().iter().map(|c| c.0).collect(),
+            _ => layouts::extra_ctors_ps2().iter().map(|c| c.0).collect(),
+        };
+        let slot = match set {
+            1 => &scan::CTOR_SET1,
+            2 => &scan::CTOR_SET2,
+            _ => &scan::CTOR_PS2,
+        };
+        let ty = match set {
+            1 => "ScancodeSet1",
+            2 => "ScancodeSet2",
+            _ => "Ps2Decoder",
+        };
+        for (k, name) in names.iter().enumerate() {
+            slot.store(k + 1, SeqCst);
+            let mut sub = Report::new(prop, &rep.tier, rep.seed);
+            let r = report::guarded(|| dispatch_once(prop, &mut sub));
+            slot.store(0, SeqCst);
+            if let Err(msg) = r {
+                sub.violate(format!("{}|panic-outside-guard|{}", prop, report::panic_sig(&msg)), format!("the crate panicked while the monitor was collecting observations: {}", msg), json::J::Null);
+            }
+            rep.absorb(sub, &format!("{}::{}", ty, name));
+        }
+    }
+}
+
+fn dispatch_once(prop: &str, rep: &mut Report) {
     let rep = &mut *rep;
     match prop {
         "C01" => {
